@@ -668,6 +668,7 @@ static J gen_c03 (uint64_t seed, uint64_t idx)
 			for (int k = 0, n = (int) gx.rng.pick<int> ({ 1, 1, 1, 2 }) ; k < n ; k++)
 			{	J e = J::obj () ; e ["kind"] = "chunk_field" ; e ["fmt_field"] = 1 ; e ["chunk"] = (long long) gx.rng.below (64) ; e ["foff"] = (long long) gx.rng.below (240) ;
 				if (gx.rng.chance (0.7)) e ["primary"] = 1 ;
+				if (gx.rng.chance (0.2)) { e ["dup"] = 1 ; e ["at_end"] = gx.rng.chance (0.7) ? 1 : 0 ; e ["to"] = (long long) gx.rng.below (64) ; if (gx.rng.chance (0.5)) e ["chan"] = 1 ; }
 				e ["width"] = (int) gx.rng.pick<int> ({ 2, 2, 4, 4 }) ; e ["swap"] = gx.rng.chance (0.05) ? 1 : 0 ;
 				e ["val"] = (long long) gx.rng.pick<int64_t> ({ 0, 0, 0, 0, 0, 0, 1, 2, 3, 7, 8, 16, 0x7f, 0x80, 0xff, 0x100, 0x7fff, 0x8000, 0xffff, 0x10000, 0x7fffffff, (int64_t) 0x80000000LL, 0xfffffff8LL, 0xffffffffLL }) ;
 				extra.push (e) ;
